@@ -89,6 +89,15 @@ def _m_partner(r, a):
     return out
 
 
+def _astype_same(x):
+    r = x.astype(x.dtype)
+    was = r.tolist()
+    if r.size:
+        fl = r.ravel()
+        fl[...] = fl[::-1].copy() if len(set(np.asarray(fl).tolist())) > 1 else fl + 1
+    return [was, x.tolist()]
+
+
 def _bad_assign(x, a):
     """a whole-array assignment that cannot be carried out (wrong number of values, a ragged value of other row lengths, a value the element type
     cannot hold) -- or one that changes nothing (the array itself as the value): what happened, and the content afterwards"""
@@ -143,6 +152,8 @@ OBS = {
     "nonzero": (lambda x, a: [q.tolist() for q in x.nonzero()], lambda r, a: [[i for i, q in enumerate(r) for v in q if v], [j for q in r for j, v in enumerate(q) if v]]),
     # the array as the ARGUMENT of equals (the receiver is an equal array built from plain lists): what the argument has not yet done to itself must not matter
     "equalsarg": (lambda x, a: bool(CTX.lib.RaggedArray([list(q) for q in a[0]], dtype=np.dtype(a[1])).equals(x)) if len(a[0]) else True, lambda r, a: True),
+    # a conversion to the element type the array already has is a new array: writing into it leaves the array alone
+    "astypesame": (lambda x, a: _astype_same(x), lambda r, a: [[list(q) for q in r], [list(q) for q in r]]),
     "equals": (lambda x, a: bool(x.equals(CTX.lib.RaggedArray(x.tolist(), dtype=np.int64) if len(x) else x)), lambda r, a: True),
     "eqself": (lambda x, a: (x == x).tolist(), lambda r, a: [[True] * len(q) for q in r]),
     "add1": (lambda x, a: (x + np.int64(1)).tolist(), lambda r, a: [[v + 1 for v in q] for q in r]),
@@ -208,11 +219,11 @@ def _snap_same(o, sn):
 
 # observations after which the receiver is certainly materialised (used for hazard tracking; conservative:
 # repr/str of an array with more than 100 cells print a *selection* of it and leave the array itself lazy)
-MATERIALISING = {"unimpl", "tolist", "iter", "ravel", "sum1", "npsum1", "sumall", "nonzero", "add1", "eqself", "cumsum", "sort", "diff", "zeros", "concatself", "astype", "save"}
+MATERIALISING = {"astypesame", "unimpl", "tolist", "iter", "ravel", "sum1", "npsum1", "sumall", "nonzero", "add1", "eqself", "cumsum", "sort", "diff", "zeros", "concatself", "astype", "save"}
 READ_OPS = [k for k in OBS]
 NOT_READS = {"badassign"}       # attempted writes (refused, or without effect): part of the programs, never inserted as "extra reads"
 # observations whose result on float data (NaN, inf, -0.0, non-dyadic values) is defined element by element, hence exactly predictable
-FLOAT_OBS = ["reversed", "lenbool", "partnerpurity", "tolist", "iter", "ravel", "meta", "repr", "str", "row", "elem", "rowscol", "pairs", "elem_oob", "rows_oob", "badadd", "badassign", "unimpl", "equalsarg", "ell", "empty", "maskidx", "subset", "padded", "nonzero", "add1", "sel", "rslice",
+FLOAT_OBS = ["reversed", "lenbool", "partnerpurity", "tolist", "iter", "ravel", "meta", "repr", "str", "row", "elem", "rowscol", "pairs", "elem_oob", "rows_oob", "badadd", "badassign", "unimpl", "equalsarg", "astypesame", "ell", "empty", "maskidx", "subset", "padded", "nonzero", "add1", "sel", "rslice",
              "getcol", "colcounts", "tonp", "astype", "concatself", "zeros", "diff", "save"]
 FLOAT_READS = [o_ for o_ in FLOAT_OBS if o_ not in NOT_READS] + ["sum1", "npsum1", "sumall", "any1", "eqself", "where", "max1", "sort", "unique", "mean1", "mean0", "all1", "min1"]     # fine as *inserted reads* (no model opinion needed)
 FLOAT_POOL = [0.1, 0.7, 1e17, 1.0, -2.5, 3.25, float("inf"), float("nan"), -0.0, 0.3, 123456.789, -1e-7, float("-inf"), 2.0]
